@@ -92,7 +92,7 @@ pub fn cfg_params(cfg: &str) -> (u64, usize, usize) {
         "kb4" => (p3_koala_bear::KoalaBear::ORDER_U64, 4, 8),
         "bb4" => (p3_baby_bear::BabyBear::ORDER_U64, 4, 8),
         "kb1" | "kb1p1" => (p3_koala_bear::KoalaBear::ORDER_U64, 1, 8),
-        "kb5q1" => (p3_koala_bear::KoalaBear::ORDER_U64, 5, 8),
+        "kb5q1" | "kb5q1p1" => (p3_koala_bear::KoalaBear::ORDER_U64, 5, 8),
         _ => (p3_goldilocks::Goldilocks::ORDER_U64, 2, 4),
     }
 }
